@@ -31,7 +31,7 @@ def run(ck):
         ck.extra_cov['exhaustive_over_modulo_values'] = True
     else:
         ck.mc('AddrTheorems', 'MC_Addr_quick.cfg', timeout=1200, coverage=False)
-    isa_common.family_check(ck, FAMILY, ck.pick(2, 4), 'c10', rounds=ck.pick(1, 3))
+    isa_common.family_check(ck, FAMILY, ck.pick(8, 16), 'c10', rounds=ck.pick(1, 4))
     ck.assumptions += isa_common.ISA_ASSUMPTIONS + [
         'the cyclic-walk theorem is stated for start addresses inside the buffer (offset <= mod), as the property does']
 
